@@ -11,6 +11,7 @@
    wrapper and adding the taken nodes are changes at the top level (`ValR_top`). -/
 import Proofs.FitValid
 import PM.FitGuards
+import Proofs.OpGuardB
 set_option linter.unusedVariables false
 namespace PM
 
@@ -1189,6 +1190,130 @@ theorem replaceStep_inline_valid (S : Schema) (hdet : DetS S) (hfill : FillersOK
           obtain ⟨pt, hpt⟩ := hpt
           have hcv := closeFit_vinv S hdet hfill hleaf hts hcl hpt hattrs st1.frontier st1.placed rf.depth g1
             inv1.frok inv1.sp hv1 c.1 c.2 hc
+          exact fitEmit_valid S rf rt mi _ c.1 c.2 st h hcv
+    · simp [throw, throwThe, MonadExceptOf.throw] at h
+
+/-! ### the decidable form of the invariant (`FitState.validB`, PM/FitGuards.lean) is sound, and payload validity
+    follows from it for **every** request -/
+
+theorem levelRB_sound (S : Schema) (mk : Bool) (it : FItem) (F : List Node) (h : levelRB S mk it F = true) :
+    LevelR S mk it F := by
+  intro hmk
+  subst hmk
+  simp only [levelRB, Bool.not_true, Bool.false_or, Bool.and_eq_true, decide_eq_true_eq, List.all_eq_true,
+    beq_iff_eq] at h
+  obtain ⟨⟨h1, h2⟩, h3, h4⟩ := h
+  obtain ⟨q, hq⟩ := Option.isSome_iff_exists.1 h3
+  exact ⟨h1, h2, q, hq, by rw [h4, hq]⟩
+
+theorem valRB_sound (S : Schema) : ∀ (fr : List FItem) (mk : Bool) (x : Nat) (F : List Node),
+    valRB S mk x fr F = true → ValR S (LevelR S) mk x fr F
+  | [], _, _, _, _ => trivial
+  | [it], mk, x, F, h => by
+    simp only [valRB, Bool.and_eq_true] at h
+    exact ⟨by rw [← leftOpenValidB_eq]; exact h.1, levelRB_sound S mk it F h.2⟩
+  | it :: nxt :: rest, mk, x, F, h => by
+    simp only [valRB] at h
+    split at h
+    · rename_i t a m k hl
+      obtain ⟨init, rfl⟩ := List.getLast?_eq_some_iff.mp hl
+      simp only [List.dropLast_concat, Bool.and_eq_true, beq_iff_eq] at h
+      obtain ⟨⟨⟨⟨h1, h2⟩, h3⟩, h4⟩, h5⟩ := h
+      exact ⟨init, t, a, m, k, rfl, h1, by rw [← leftOpenValidB_eq]; exact h2, levelRB_sound S mk it _ h3, h4,
+        valRB_sound S (nxt :: rest) true 0 k h5⟩
+    · simp at h
+
+theorem pureVB_sound (S : Schema) : ∀ (d : Nat) (c G : List Node), pureVB S d c = some G → PureV S d c G
+  | 0, c, G, h => by
+    simp only [pureVB, Option.some.injEq] at h
+    exact h
+  | d + 1, c, G, h => by
+    cases c with
+    | nil => simp [pureVB] at h
+    | cons n rest =>
+      cases rest with
+      | cons y ys => simp [pureVB] at h
+      | nil =>
+        cases n with
+        | text s m => simp [pureVB] at h
+        | leaf t a m => simp [pureVB] at h
+        | elem t a m k =>
+          simp only [pureVB] at h
+          split at h
+          · rename_i hm
+            exact ⟨t, a, m, k, rfl, hm, pureVB_sound S d k G h⟩
+          · simp at h
+
+theorem validB_sound (S : Schema) (D : Nat) (st : FitState) (h : st.validB S D = true) :
+    ∃ g, VInv S D g st.frontier st.placed := by
+  simp only [FitState.validB, List.any_eq_true, List.mem_range, Bool.and_eq_true, decide_eq_true_eq] at h
+  obtain ⟨g, hg, hgl, hm⟩ := h
+  split at hm
+  · rename_i G hG
+    exact ⟨g, by omega, hgl, G, pureVB_sound S g _ G hG, valRB_sound S _ false _ G hm⟩
+  · simp at hm
+
+theorem fitEndInv_eq (S : Schema) (doc : Node) (f t : Nat) (sl : Slice) (rf rt : RPos) (st0 st1 : FitState)
+    (hc : ¬ ((f == t && sl.size == 0) = true)) (hf : doc.resolve f = some rf) (ht : doc.resolve t = some rt)
+    (htr : fitsTriviallyR S rf rt sl = some false) (h0 : fitInit S rf sl = .ok st0)
+    (h1 : fitLoop S (fitFuel S sl) st0 = .ok st1) :
+    fitEndInv S doc f t sl = some (st1.inStepB && st1.validB S rf.depth) := by
+  unfold fitEndInv
+  rw [if_neg hc]
+  simp only [hf, ht, htr, h0, h1]
+
+/-- **payload validity reduced to the invariant at the end of the loop**, for every request: if the loop of `fit`
+    ends in step and with `FitState.validB` (`fitEndInv`, decidable), the payload of the emitted step is valid -/
+theorem replaceStep_valid_of_inv (S : Schema) (hdet : DetS S) (hfill : FillersOK S) (hleaf : PM.FromDom.LeafOk S)
+    (hts : TextStableP S) (hcl : Closable S) (doc : Node) (f t : Nat) (sl : Slice)
+    (hslv : openValid S sl.openStart sl.openEnd sl.content = true) (hattrs : S.nodeAttrsOK doc = true) (st : Step)
+    (h : replaceStep S doc f t sl = .ok (some st)) (hend : fitEndInv S doc f t sl ≠ some false) :
+    ∃ sl', st.sliceOf = some sl' ∧ openValid S sl'.openStart sl'.openEnd sl'.content = true := by
+  unfold replaceStep at h
+  split at h
+  · simp [pure, Except.pure] at h
+  · rename_i hc
+    split at h
+    · rename_i rf rt hf ht
+      split at h
+      · simp [throw, throwThe, MonadExceptOf.throw] at h
+      · have := pure_ok h
+        simp only [Option.some.injEq] at this
+        subst this
+        exact ⟨sl, rfl, hslv⟩
+      · rename_i htr
+        unfold fitterFit at h
+        obtain ⟨st0, h0, h⟩ := FM.bind_ok h
+        obtain ⟨st1, h1, h⟩ := FM.bind_ok h
+        have he := fitEndInv_eq S doc f t sl rf rt st0 st1 hc hf ht htr h0 h1
+        have hboth : (st1.inStepB && st1.validB S rf.depth) = true := by
+          cases hb : (st1.inStepB && st1.validB S rf.depth) with
+          | true => rfl
+          | false => rw [hb] at he; exact absurd he hend
+        simp only [Bool.and_eq_true] at hboth
+        obtain ⟨hi, hvb⟩ := hboth
+        simp only [FitState.inStepB, Bool.and_eq_true, Bool.not_eq_eq_eq_not, Bool.not_true, List.all_eq_true,
+          decide_eq_true_eq] at hi
+        obtain ⟨⟨_, hall⟩, hsp⟩ := hi
+        obtain ⟨g, hv1⟩ := validB_sound S rf.depth st1 hvb
+        obtain ⟨mi, _, h⟩ := FM.bind_ok h
+        simp only at h
+        obtain ⟨target, htg, h⟩ := FM.bind_ok h
+        obtain ⟨c, hc, h⟩ := FM.bind_ok h
+        cases c with
+        | none => simp [pure, Except.pure] at h
+        | some c =>
+          simp only at h
+          have hpt : ∃ pt, doc.resolve pt = some target := by
+            cases mi with
+            | none =>
+              have := pure_ok htg
+              subst this
+              exact ⟨t, ht⟩
+            | some p => exact ⟨p, liftRaise_ok htg⟩
+          obtain ⟨pt, hpt⟩ := hpt
+          have hcv := closeFit_vinv S hdet hfill hleaf hts hcl hpt hattrs st1.frontier st1.placed rf.depth g
+            (fun it hit => Option.isSome_iff_exists.1 (hall it hit)) (spineR_rspineOK _ _ hsp) hv1 c.1 c.2 hc
           exact fitEmit_valid S rf rt mi _ c.1 c.2 st h hcv
     · simp [throw, throwThe, MonadExceptOf.throw] at h
 
